@@ -152,6 +152,9 @@ type vc struct {
 	curOrigin string
 	firstIter []firstIterEq
 	curBlock    *ssa.BasicBlock
+	hookNames   map[string]tv
+	sentinelList []string
+	retBlock    *ssa.BasicBlock
 	frameCache  *frameSpec
 	lastCall    []string
 	lastCallSig *types.Signature
@@ -439,6 +442,9 @@ func (v *vc) load(st *state, a *addr) string {
 		h, _ := v.elemHeap(a.typ)
 		return sel(sel(v.getHeap(st, h), a.base), a.idx)
 	case aGlobal:
+		if isIface(a.typ) {
+			return v.sentinel(a.key)
+		}
 		h, _ := v.globalHeap(a.key, a.typ)
 		return v.getHeap(st, h)
 	case aPath:
